@@ -26,6 +26,7 @@ package federation
 
 import (
 	"context"
+	"crypto/md5"
 	"encoding/json"
 	"fmt"
 	"io"
@@ -111,9 +112,22 @@ func (s *c18Stub) CollectionGet(ctx context.Context, opts arvados.GetOptions) (a
 	case "5xx":
 		return arvados.Collection{}, c18HTTPErr(503)
 	}
+	// The portable_data_hash field of the answer is under the remote's
+	// control too: depending on (text, id) it is the true PDH of the text
+	// sent, an echo of the hash+size that was asked for (what a lying or
+	// buggy remote would send along with an altered manifest), or empty.
+	pdhField := c18ref.PDH(s.rem.Text)
+	switch sum := md5.Sum([]byte(s.rem.Text + "|" + s.rem.ID)); sum[0] % 3 {
+	case 1:
+		if parts := strings.SplitN(opts.UUID, "+", 3); len(parts) >= 2 {
+			pdhField = parts[0] + "+" + parts[1]
+		}
+	case 2:
+		pdhField = ""
+	}
 	return arvados.Collection{
 		UUID:             s.rem.ID + "-4zz18-0123456789abcde",
-		PortableDataHash: c18ref.PDH(s.rem.Text),
+		PortableDataHash: pdhField,
 		ManifestText:     s.rem.Text,
 	}, nil
 }
